@@ -22,7 +22,7 @@ use crate::subjects::{amt, shown, Shown};
 
 #[derive(Clone, Debug, Serialize, Deserialize)]
 pub struct Violation {
-    /// text | width_in_bytes | err_without_fault | panic_without_fault | parse_back | frac_digits | dec_precision_clamped_18
+    /// text | width_in_bytes | err_without_fault | panic_without_fault | parse_back | frac_digits | dec_precision_clamped_18 | ok_despite_sink_error
     pub kind: String,
     pub thread: usize,
     pub op: usize,
@@ -49,6 +49,8 @@ pub struct RunStats {
     #[serde(default)]
     pub switches_at_fn_entry: u64,
     pub sink_error_fired: u64,
+    #[serde(default)]
+    pub sink_reject_fired: u64,
     pub sink_panic_fired: u64,
     pub nested_fired: u64,
     pub ops_after_fault_same_thread: u64,
@@ -443,7 +445,7 @@ impl SimSink<'_> {
             if at == k {
                 self.fault_fired = Some(kind);
                 match kind {
-                    FaultKind::Error => return Err(fmt::Error),
+                    FaultKind::Error | FaultKind::Reject => return Err(fmt::Error),
                     FaultKind::Panic => panic!("simulated sink crash"),
                 }
             }
@@ -563,6 +565,20 @@ fn run_op(sched: &Sched, me: usize, idx: usize, op: &Op, alloc_seams: bool) -> O
         if let Some(v) = judge(&sh, &op.spec, &out, &sink.text) {
             violations.push(mk(false, &sh, &op.spec, v));
         }
+    } else if matches!(sink.fault_fired, Some(FaultKind::Error | FaultKind::Reject)) && out == Outcome::Ok {
+        // the display reports that it wrote the text although the sink refused part of it:
+        // what the sink holds is then not "amount, one space, symbol"
+        if let Some(e) = &sh.expect {
+            if *e != sink.text {
+                judged += 1;
+                violations.push(mk(
+                    false,
+                    &sh,
+                    &op.spec,
+                    ("ok_despite_sink_error".into(), format!("Err (the sink refused a write), or {:?} delivered", e), format!("Ok with {:?} delivered", sink.text)),
+                ));
+            }
+        }
     }
     let mut nested_line = String::new();
     let nested = sink.nested.is_some();
@@ -630,6 +646,10 @@ pub fn execute_mode(plan: &Plan, free: bool) -> RunResult {
                     stats.sink_error_fired += 1;
                     faulted_before = true;
                 }
+                Some(FaultKind::Reject) => {
+                    stats.sink_reject_fired += 1;
+                    faulted_before = true;
+                }
                 Some(FaultKind::Panic) => {
                     stats.sink_panic_fired += 1;
                     faulted_before = true;
@@ -654,6 +674,6 @@ pub fn execute_mode(plan: &Plan, free: bool) -> RunResult {
     stats.stalls = st.stalls;
     stats.trace_hash = crate::prng::fnv64(&st.trace);
     stats.nontrivial = stats.switches_inside_op > 0
-        || stats.sink_error_fired + stats.sink_panic_fired + stats.nested_fired > 0;
+        || stats.sink_error_fired + stats.sink_reject_fired + stats.sink_panic_fired + stats.nested_fired > 0;
     RunResult { violations, stats, log }
 }
